@@ -115,6 +115,14 @@ def gen(tier, seed):
         t = build(sh, False, discs, r)
         mods.append(emit(f'm{n:04d}', f'{S.shape_id(sh)}/discriminants={discs}/repr={r}', sh, False, t_override=t))
         n += 1
+    from . import model
+    model.TYPE_WRAP = model.generic_header_wrap
+    try:
+        for sh in [('struct', [('named', ['p', 'i', 'm'])]), ('enum', [('tuple', ['p', 'm']), ('named', ['i', 'p', 'w']), ('unit', [])])]:
+            mods.append(emit(f'm{n:04d}', f'{S.shape_id(sh)}/generic header <G, const N> where G: Copy at <u8, 3>', sh, False))
+            n += 1
+    finally:
+        model.TYPE_WRAP = None
     return mods
 
 
